@@ -265,6 +265,8 @@ pub enum Case19 {
     /// the calls are executed once in order (recording), then again in the
     /// order given by `replay` (indices, repetitions allowed)
     History { calls: Vec<Call>, replay: Vec<usize> },
+    /// a verdict of one of the side crates (shuttle schedule / Miri seeds)
+    Side(crate::props::c19_side::SideCase),
 }
 
 fn printable(b: &[u8]) -> String {
@@ -278,6 +280,7 @@ fn printable(b: &[u8]) -> String {
 
 fn exec_c19(case: &Case19, obs: &mut Obs) -> Result<(), Failure> {
     match case {
+        Case19::Side(s) => crate::props::c19_side::exec_side(s),
         Case19::Silent(call) => {
             obs.steps += 1;
             if !engine::capture_active() {
@@ -388,6 +391,7 @@ impl Scenario for C19 {
     }
     fn shrink(case: &Case19) -> Vec<Case19> {
         match case {
+            Case19::Side(_) => Vec::new(),
             Case19::Silent(call) => {
                 let mut out = Vec::new();
                 if let Call::Decode { bytes, opts } = call {
